@@ -1,6 +1,7 @@
 package main
 
 import (
+	"encoding/json"
 	"fmt"
 	"strings"
 
@@ -261,6 +262,79 @@ func (x *runner) sweeps() {
 					e := strings.ReplaceAll(mk("child_segments", "header", func(n string) string { return n }, ""), `"header":`, `"_comment":`)
 					run("multi-target-edi", []byte(fmt.Sprintf(`{%s,"file_declaration":{"segment_delimiter":"~","element_delimiter":"*","segment_declarations":%s},%s}`, hdr("edi"), e, fo)), []byte("T*1~O*1~K*1~M*1~K*2~T*2~K*3~"), false, "multi-target")
 				}
+			}
+		}
+	}
+
+	// 2g. EDI: segment delimiter x release character x ignore_crlf x what follows the last segment
+	{
+		segDelims := []string{"~", `\n`, `\r\n`, `~\n`, "|~", "<>", `\u00e9~`, `\u65e5`, "'"} // JSON-escaped
+		endings := []string{"", "D", "D\r\n", "DD", "x", "Dx", "D\x1a", "D\r", "D\n", "DM", "DMS", "F", "DF", "DMSG*2*what?D", "DMSG*2*what?\r\n", "DMSG*2*what?", "DMSG*2*what??\r\n", "DMSG*2*?\r\n",
+			"DMSG*2*what?*\r\n", "D?", "D?\r\n", "DMSG*2*a:b?\r\n", "DMSG\r\n", "D*\r\n"}
+		for _, sd := range segDelims {
+			for _, rel := range []bool{false, true} {
+				for _, icr := range []bool{false, true} {
+					relS := ""
+					if rel {
+						relS = `"release_character":"?",`
+					}
+					sch := fmt.Sprintf(`{%s,"file_declaration":{"segment_delimiter":"%s","element_delimiter":"*","component_delimiter":":",%s"ignore_crlf":%v,"segment_declarations":[{"name":"MSG","is_target":true,"min":0,"max":-1,"elements":[{"name":"a","index":1},{"name":"b","index":2,"default":""},{"name":"c","index":2,"component_index":2,"default":""}]}]},"transform_declarations":{"FINAL_OUTPUT":{"object":{"a":{"xpath":"a"},"b":{"xpath":"b"}}}}}`,
+						hdr("edi"), sd, relS, icr)
+					var delim string
+					_ = json.Unmarshal([]byte(`"`+sd+`"`), &delim)
+					for _, e := range endings {
+						tail := strings.ReplaceAll(e, "D", delim)
+						tail = strings.ReplaceAll(tail, "F", delim[:1]) // the first byte of the delimiter only
+						tail = strings.NewReplacer("\\r", "\r", "\\n", "\n", "\\x1a", "\x1a").Replace(tail)
+						run("edi-delims", []byte(sch), []byte("MSG*1*ab"+delim+"MSG*1*cd"+tail), false, "edi-delimiter-ending")
+					}
+				}
+			}
+		}
+	}
+
+	// 2h. occurrence bounds min / max in {0, 1, 2, -1} on the first child of a group (and on the
+	// group), with that child present, absent and repeated in the input
+	{
+		bounds := []string{"0", "1", "2", "-1"}
+		fo := `"transform_declarations":{"FINAL_OUTPUT":{"object":{"a":{"xpath":"."}}}}`
+		for _, gmax := range []string{"1", "2", "-1"} {
+			for _, mn := range bounds[:3] {
+				for _, mx := range bounds {
+					for ii, in := range [][]string{{"A", "B", "A", "B"}, {"B", "B"}, {"A", "A", "A", "B", "A", "B", "A"}, {"A"}, {}} {
+						e := fmt.Sprintf(`[{"name":"G","type":"segment_group","min":0,"max":%s,"child_segments":[{"name":"A","min":%s,"max":%s},{"name":"B","is_target":true,"min":0,"max":-1}]},{"name":"Z","min":0}]`, gmax, mn, mx)
+						run("bounds-edi", []byte(fmt.Sprintf(`{%s,"file_declaration":{"segment_delimiter":"~","element_delimiter":"*","segment_declarations":%s},%s}`, hdr("edi"), e, fo)),
+							[]byte(strings.Join(in, "*x~")+map[bool]string{true: "*x~", false: ""}[len(in) > 0]), false, "occurrence-bounds")
+						if ii < 4 {
+							c2 := fmt.Sprintf(`[{"name":"G","type":"record_group","min":0,"max":%s,"child_records":[{"name":"A","header":"^A","min":%s,"max":%s},{"name":"B","header":"^B","is_target":true,"min":0,"max":-1}]},{"name":"Z","header":"^Z","min":0}]`, gmax, mn, mx)
+							run("bounds-csv2", []byte(fmt.Sprintf(`{%s,"file_declaration":{"delimiter":",","records":%s},%s}`, hdr("csv2"), c2, fo)), []byte(strings.Join(in, ",x\n")+map[bool]string{true: ",x\n", false: ""}[len(in) > 0]), false, "occurrence-bounds")
+							f2 := strings.NewReplacer("record_group", "envelope_group", "child_records", "child_envelopes").Replace(c2)
+							run("bounds-fixedlength2", []byte(fmt.Sprintf(`{%s,"file_declaration":{"envelopes":%s},%s}`, hdr("fixedlength2"), f2, fo)), []byte(strings.Join(in, " x\n")+map[bool]string{true: " x\n", false: ""}[len(in) > 0]), false, "occurrence-bounds")
+						}
+					}
+				}
+			}
+		}
+	}
+
+	// 2i. template reference cycles through every kind of edge (xpath_dynamic, custom_func argument,
+	// object member, array element), alone and mixed
+	{
+		edge := map[string]string{
+			"xd":  `{"xpath_dynamic":{"template":"%s"}}`,
+			"xdo": `{"xpath_dynamic":{"template":"%s"},"object":{"k":{"const":"v"}}}`,
+			"arg": `{"custom_func":{"name":"concat","args":[{"template":"%s"},{"const":"x"}]}}`,
+			"obj": `{"object":{"k":{"template":"%s"}}}`,
+			"arr": `{"array":[{"template":"%s"}]}`,
+			"xda": `{"xpath_dynamic":{"custom_func":{"name":"concat","args":[{"template":"%s"}]}}}`,
+		}
+		kinds := []string{"xd", "xdo", "arg", "obj", "arr", "xda"}
+		for _, k1 := range kinds {
+			self := fmt.Sprintf(`{%s,"transform_declarations":{"FINAL_OUTPUT":{"object":{"a":{"template":"t1"}}},"t1":%s}}`, hdr("xml"), fmt.Sprintf(edge[k1], "t1"))
+			run("template-cycle", []byte(self), []byte("<a/>"), false, "template-cycle")
+			for _, k2 := range kinds {
+				two := fmt.Sprintf(`{%s,"transform_declarations":{"FINAL_OUTPUT":{"object":{"a":{"template":"t1"}}},"t1":%s,"t2":%s}}`, hdr("xml"), fmt.Sprintf(edge[k1], "t2"), fmt.Sprintf(edge[k2], "t1"))
+				run("template-cycle", []byte(two), []byte("<a/>"), false, "template-cycle")
 			}
 		}
 	}
